@@ -97,6 +97,24 @@ def check(cx):
                 r2.violation('%s|calls-acquirer|%s' % (base_fn(d), e.data['name']), '%s calls %s, which acquires the state lock, while holding a %s '
                              'guard (deadlock)' % (base_fn(d), e.data['name'], e.guards[-1][0]), loc=cx.loc(e.node))
 
+    # ---------------------------------------------------------------- R18.7
+    # every state access waits for the lock: with `try_read` / `try_write` the access (and whatever it would have written) is skipped
+    # whenever another session holds the lock at that instant - an outcome no one-at-a-time order of the same commands produces;
+    # `blocking_*` parks the executor thread of an async task instead of yielding
+    r7 = cx.rule('R18.7', 'the state lock is always waited for', floor=25, kind='lock-order')
+    for d, w in walks:
+        for e in w.events:
+            if e.kind == 'lock':
+                how = e.data.get('how') or e.data['mode']
+                r7.instance('%s: %s()' % (base_fn(d), how))
+                if how.startswith('try_'):
+                    r7.violation('%s|conditional-acquisition|%s' % (base_fn(d), how), '%s takes the state lock with %s(): under contention the '
+                                 'guarded step is silently skipped, so the outcome depends on what other sessions are doing' % (base_fn(d), how),
+                                 loc=cx.loc(e.node))
+                elif how.startswith('blocking_'):
+                    r7.violation('%s|blocking-acquisition|%s' % (base_fn(d), how), '%s takes the state lock with %s() inside an async task'
+                                 % (base_fn(d), how), loc=cx.loc(e.node))
+
     # ---------------------------------------------------------------- R18.3
     r3 = cx.rule('R18.3', 'check and act under one guard', floor=30, kind='required-guard')
     for d, w in walks:
